@@ -46,7 +46,7 @@ package memefish
 // @   ensures[C07] precdef: precOK(result)
 // @   ensures[C05] pf: pf(result)
 // @   ensures[C05] range: within(result, lowerBound(), p.Lexer.Token.Pos)
-// @   ensures[C06] nilkeeps: !notNil(result) && len(p.errors) == old(len(p.errors)) ==> p.Lexer.Token.Pos == old(p.Lexer.Token.Pos) && trivStart(p.Lexer) == old(trivStart(p.Lexer))
+// @   ensures[C06] nilkeeps: isEmpty(result) && len(p.errors) == old(len(p.errors)) ==> p.Lexer.Token.Pos == old(p.Lexer.Token.Pos) && trivStart(p.Lexer) == old(trivStart(p.Lexer))
 // @   ensures[C06] exact: len(p.errors) == old(len(p.errors)) ==> spans(result, lowerBound(), trivStart(p.Lexer))
 // @   panics when true
 // @   modifies p.Lexer, p.errors, cur(p.Lexer).pos, cur(p.Lexer).Token.*, cur(p.Lexer).lastTokenKind, cur(p.Lexer).dotIdent, p.Lexer.File.lines
@@ -100,7 +100,7 @@ package memefish
 // @   ensures[C07] precdef: precOK(result)
 // @   ensures[C05] pf: pf(result)
 // @   ensures[C05] range: within(result, lowerBound(), p.Lexer.Token.Pos)
-// @   ensures[C06] nilkeeps: !notNil(result) && len(p.errors) == old(len(p.errors)) ==> p.Lexer.Token.Pos == old(p.Lexer.Token.Pos) && trivStart(p.Lexer) == old(trivStart(p.Lexer))
+// @   ensures[C06] nilkeeps: isEmpty(result) && len(p.errors) == old(len(p.errors)) ==> p.Lexer.Token.Pos == old(p.Lexer.Token.Pos) && trivStart(p.Lexer) == old(trivStart(p.Lexer))
 // @   ensures[C06] exact: len(p.errors) == old(len(p.errors)) ==> spans(result, lowerBound(), trivStart(p.Lexer))
 // @   panics when true
 // @   modifies p.Lexer, p.errors, cur(p.Lexer).pos, cur(p.Lexer).Token.*, cur(p.Lexer).lastTokenKind, cur(p.Lexer).dotIdent, p.Lexer.File.lines
@@ -616,7 +616,7 @@ package memefish
 // @   ensures result == join && wf(result)
 // @   ensures[C05] pf: pf(result)
 // @   ensures[C05] range: within(result, lowerBound(), p.Lexer.Token.Pos)
-// @   ensures[C06] exact: len(p.errors) == old(len(p.errors)) ==> spans(result, lowerBound(), trivStart(p.Lexer))
+// @   ensures[C06] exact: len(p.errors) == old(len(p.errors)) && old($end(join) == trivStart(p.Lexer)) ==> spans(result, lowerBound(), trivStart(p.Lexer))
 // @   panics when true
 // @   modifies p.Lexer, p.errors, cur(p.Lexer).pos, cur(p.Lexer).Token.*, cur(p.Lexer).lastTokenKind, cur(p.Lexer).dotIdent, p.Lexer.File.lines, node(join).Sample
 
@@ -636,7 +636,7 @@ package memefish
 // @   ensures[C07] precdef: precOK(result)
 // @   ensures[C05] pf: pf(result)
 // @   ensures[C05] range: within(result, lowerBound(), p.Lexer.Token.Pos)
-// @   ensures[C06] exact: len(p.errors) == old(len(p.errors)) ==> spans(result, lowerBound(), trivStart(p.Lexer))
+// @   ensures[C06] exact: len(p.errors) == old(len(p.errors)) && old($end(e) == trivStart(p.Lexer)) ==> spans(result, lowerBound(), trivStart(p.Lexer))
 // @   ensures result == e || freshRef(result)
 // @   panics when true
 // @   modifies p.Lexer, p.errors, cur(p.Lexer).pos, cur(p.Lexer).Token.*, cur(p.Lexer).lastTokenKind, cur(p.Lexer).dotIdent, p.Lexer.File.lines
@@ -677,20 +677,25 @@ package memefish
 // Finishers: the caller hands in the node(s) it has just parsed.
 // @ func memefish.(*Parser).parsePathTableExprSuffix
 // @   inherit parsersuffix
+// @   ensures[C06] exact: len(p.errors) == old(len(p.errors)) && old($end(id) == trivStart(p.Lexer)) ==> spans(result, lowerBound(), trivStart(p.Lexer))
 // @   requires notNil(id)
 // @ func memefish.(*Parser).parseTableNameSuffix
 // @   inherit parsersuffix
+// @   ensures[C06] exact: len(p.errors) == old(len(p.errors)) && old($end(id) == trivStart(p.Lexer)) ==> spans(result, lowerBound(), trivStart(p.Lexer))
 // @   requires notNil(id)
 // @ func memefish.(*Parser).parseUnnestSuffix
 // @   inherit parsersuffix
+// @   ensures[C06] exact: len(p.errors) == old(len(p.errors)) && old(rparen + 1 == trivStart(p.Lexer)) ==> spans(result, lowerBound(), trivStart(p.Lexer))
 // @   requires notNil(expr)
 // @   requires[C05] order: unnest <= $pos(expr) && $end(expr) <= rparen && rparen < p.Lexer.Token.Pos
 // @ func memefish.(*Parser).parseNewConstructor
 // @   inherit parser
 // @   requires notNil(namedType)
+// @   ensures[C06] exact: len(p.errors) == old(len(p.errors)) && old(newPos <= $pos(namedType)) ==> spans(result, lowerBound(), trivStart(p.Lexer))
 // @ func memefish.(*Parser).parseBracedNewConstructor
 // @   inherit parser
 // @   requires notNil(namedType)
+// @   ensures[C06] exact: len(p.errors) == old(len(p.errors)) && old(newPos <= $pos(namedType)) ==> spans(result, lowerBound(), trivStart(p.Lexer))
 // @ func memefish.(*Parser).tryParseCreateModelColumn
 // @   inherit parser
 // @ func memefish.(*Parser).parseChangeStreamFor
@@ -788,3 +793,12 @@ package memefish
 // @   inherit parser
 // @   ensures[C05] inside: old(p.Lexer.Token.Pos) <= result1 && result1 < p.Lexer.Token.Pos && within(result0, old(p.Lexer.Token.Pos), result1)
 // @   ensures[C06] gtpos: len(p.errors) == old(len(p.errors)) ==> result1 >= 0 && (result1 + 1 == trivStart(p.Lexer) || (p.Lexer.Token.Kind == ">" && result1 + 1 == p.Lexer.Token.Pos))
+
+
+// Lists that may be empty (C06): nothing consumed while the list is empty, exact span afterwards.
+// @ func memefish.(*Parser).parsePipeOperators
+// @   inherit parsernp
+// @   loop 0 invariant[C06] exactl: len(p.errors) == old(len(p.errors)) ==> spans(pipeOps, old(p.Lexer.Token.Pos), trivStart(p.Lexer)) && (len(pipeOps) == 0 ==> lexUnmoved(p, old(p.Lexer.Token.Pos), old(trivStart(p.Lexer))))
+// @ func memefish.(*Parser).parseSequenceParams
+// @   inherit parsernp
+// @   loop 0 invariant[C06] exactl: len(p.errors) == old(len(p.errors)) ==> spans(params, old(p.Lexer.Token.Pos), trivStart(p.Lexer)) && (len(params) == 0 ==> lexUnmoved(p, old(p.Lexer.Token.Pos), old(trivStart(p.Lexer))))
